@@ -34,7 +34,7 @@ ASSUMPTIONS = [
   'pop is only generated when no selected Variable is shared between paths or sits directly inside a list/dict/tuple (behaviour the property does not pin down)',
   'there is no scheduler or I/O behind this property; the simulator contributes long aliasing/edit histories against a model, gc instants and identity checks',
 ]
-PROBES = ['shared_variable', 'shared_or_cyclic_node', 'self_reference', 'pytree_container', 'long_list_container', 'cycle_in_graph', 'split_nonexhaustive_raises', 'merge_shuffled', 'update_foreign', 'pop_done', 'graphdef_differs_after_edit', 'gc_event', 'metadata_edited_in_place', 'snapshot_restored', 'container_root']
+PROBES = ['shared_variable', 'shared_or_cyclic_node', 'self_reference', 'pytree_container', 'long_list_container', 'cycle_in_graph', 'split_nonexhaustive_raises', 'merge_shuffled', 'update_foreign', 'pop_done', 'graphdef_differs_after_edit', 'gc_event', 'metadata_edited_in_place', 'snapshot_restored', 'container_root', 'state_routes_checked']
 
 
 def setup_worker(w, tier):
@@ -58,6 +58,10 @@ def generate(rs, tier):
       api = dict(op='split_merge', root=root, filters=fs, shuffle=g.randrange(1000), wrap=g.choice([None, None, None, 'list', 'dict', 'tuple']), root2=g.randrange(64))
     elif r < 0.40:
       api = dict(op='state', root=root, filters=[W.gen_filter(g)] if g.random() < 0.4 else [])
+      if g.random() < 0.4:
+        # the same partition through the other public routes: State.split / filter / merge, split_state / merge_state,
+        # pure-dict round trip, nnx.variables
+        api['routes'] = [W.gen_filter(g) for _ in range(g.choice([1, 1, 2]))]
     elif r < 0.46:
       api = dict(op='graphdef', root=root, edit=g.random() < 0.5)
     elif r < 0.50:
@@ -219,6 +223,31 @@ def execute(plan):
           got = [(p, W.leaf_rec_real(v)) for p, v in W.flat_real_state(st)]
           if got != leaves:
             raise Violation('state-wrong', f'{where}: state lists {[p for p, _ in got]}, expected each Variable once under its first path in sorted order {[p for p, _ in leaves]} (or values differ)')
+          if op.get('routes'):
+            flat = lambda s_: [(p, W.leaf_rec_real(v)) for p, v in W.flat_real_state(s_)]  # noqa: E731
+            rf = [W.filter_real(f) for f in op['routes']]
+            full = nnx.state(r)
+            direct = nnx.state(r, *rf, ...)
+            for name, parts in (('State.split', full.split(*rf, ...)), ('nnx.split_state', nnx.split_state(full, *rf, ...))):
+              if [flat(a) for a in parts] != [flat(a) for a in direct]:
+                raise Violation('state-partition-wrong', f'{where}: {name}(filters) partitions the Variables differently from nnx.state(node, filters)')
+            if flat(full.filter(rf[0])) != flat(nnx.state(r, rf[0])):
+              raise Violation('state-partition-wrong', f'{where}: State.filter(f) differs from nnx.state(node, f)')
+            for name, merged in (('State.merge', nnx.State.merge(*direct)), ('nnx.merge_state', nnx.merge_state(*reversed(direct)))):
+              if sorted(flat(merged)) != sorted(flat(full)):
+                raise Violation('state-partition-wrong', f'{where}: {name} of the partition does not give back the full state')
+            pure = full.to_pure_dict()
+            again = nnx.state(r)
+            again.replace_by_pure_dict(pure)
+            if flat(again) != flat(full):
+              raise Violation('state-wrong', f'{where}: to_pure_dict / replace_by_pure_dict round trip changed the state')
+            want_vars = [(p, l) for p, l in W.model_leaves(m) if isinstance(l, W.MVar) and W.filter_model(op['routes'][0], p, l)]
+            got_vars = dict(W.flat_real_state(nnx.variables(r, rf[0])))
+            # (a shared Variable is listed under each path that reaches it: only membership and identity are pinned down)
+            rev = {id(h.real[i]): h.model[i] for i in h.vars}
+            if any(got_vars.get(p) is not h.real[l.id] for p, l in want_vars) or any(id(v) not in rev or not W.filter_model(op['routes'][0], p, rev[id(v)]) for p, v in got_vars.items()):
+              raise Violation('state-wrong', f'{where}: nnx.variables(node, f) does not return the node\'s own Variable objects that match f (first paths {[p for p, _ in want_vars]}, got {sorted(got_vars, key=repr)})')
+            res.probe('state_routes_checked')
           log.add(oi, k, len(got))
         elif k == 'graphdef':
           gd = nnx.graphdef(r)
